@@ -39,6 +39,9 @@ type FuncResult struct {
 	Loops     int
 	KnownIDs  []string
 	Bounded   bool
+	C         *Contract     `json:"-"`
+	Fn        *ssa.Function `json:"-"`
+	SplitVal  *int          `json:"-"`
 }
 
 func newEngine(P *Program, fn *ssa.Function, c *Contract, cf *ContractFile) *Engine {
@@ -142,7 +145,7 @@ func VerifyFunc(P *Program, fn *ssa.Function, c *Contract, cf *ContractFile, ins
 		name += fmt.Sprintf("[%s=%d]", c.SplitVar, *vo.split)
 	}
 	e.fname = name
-	fr := &FuncResult{Pkg: c.Pkg, Key: c.Key, Inst: inst, Name: name, Mode: e.mode, File: P.pos(fn.Pos()), Trusted: c.Trusted, TrustedWhy: c.TrustedWhy}
+	fr := &FuncResult{C: c, Fn: fn, SplitVal: vo.split, Pkg: c.Pkg, Key: c.Key, Inst: inst, Name: name, Mode: e.mode, File: P.pos(fn.Pos()), Trusted: c.Trusted, TrustedWhy: c.TrustedWhy}
 	if c.Trusted {
 		fr.Assumed = append(fr.Assumed, "trusted contract (body not verified): "+name+" - "+c.TrustedWhy)
 		return fr
